@@ -140,3 +140,18 @@ Definition fset_with (F : feature) (v : bool) (o : fset) : fset :=
 Definition c13_full_statement (md_html : fset -> bytes -> bytes) : Prop :=
   forall F o d, free_of F d = true ->
     md_html (fset_with F true o) d = md_html (fset_with F false o) d.
+
+(* ------------------------------------------------------------------ entry points of the extracted driver *)
+Definition c13_feature_of_name (n : bytes) : option feature :=
+  find (fun F => bytes_eqb (B (feature_name F)) n) all_features.
+
+Definition c13_feature_names : list bytes := map (fun F => B (feature_name F)) all_features.
+
+Definition c13_triggers (n : bytes) : option (list bytes) :=
+  match c13_feature_of_name n with Some F => Some (triggers F) | None => None end.
+
+Definition c13_free_of (n d : bytes) : option bool :=
+  match c13_feature_of_name n with Some F => Some (free_of F d) | None => None end.
+
+Definition c13_free_of_heads (n d : bytes) : option bool :=
+  match c13_feature_of_name n with Some F => Some (free_of_heads F d) | None => None end.
